@@ -1,1 +1,167 @@
-// harness module for core (see DESIGN.md)
+// Harnesses in src/core.rs (child module: sees Core's private fields).  Property C20 (logging core).
+//
+// @file crate=incrate features=multi-stakker,no-unsafe-queue,logger restrict_vtable=1 replay_cfg=uazu_replay_core
+use super::*;
+use crate::uazu_stakker_verif::support::*;
+
+static mut REC_N: u8 = 0;
+static mut REC_ID: [u64; 4] = [0; 4];
+static mut REC_LEVEL: [u8; 4] = [0; 4];
+static mut REC_PARENT: [u64; 4] = [0; 4];
+static mut NEST: bool = false;
+static mut NESTED_ID: u64 = 0;
+fn rreset() {
+    unsafe {
+        REC_N = 0;
+        REC_ID = [0; 4];
+        REC_LEVEL = [0; 4];
+        REC_PARENT = [0; 4];
+        NEST = false;
+        NESTED_ID = 0;
+    }
+}
+struct Vis {
+    parent: u64,
+}
+impl LogVisitor for Vis {
+    fn kv_u64(&mut self, key: Option<&str>, val: u64) {
+        if key == Some("parent") {
+            self.parent = val;
+        }
+    }
+    fn kv_i64(&mut self, _key: Option<&str>, _val: i64) {}
+    fn kv_f64(&mut self, _key: Option<&str>, _val: f64) {}
+    fn kv_bool(&mut self, _key: Option<&str>, _val: bool) {}
+    fn kv_null(&mut self, _key: Option<&str>) {}
+    fn kv_str(&mut self, _key: Option<&str>, _val: &str) {}
+    fn kv_fmt(&mut self, _key: Option<&str>, _val: &Arguments<'_>) {}
+    fn kv_map(&mut self, _key: Option<&str>) {}
+    fn kv_mapend(&mut self, _key: Option<&str>) {}
+    fn kv_arr(&mut self, _key: Option<&str>) {}
+    fn kv_arrend(&mut self, _key: Option<&str>) {}
+}
+fn recorder(core: &mut Core, r: &LogRecord<'_>) {
+    unsafe {
+        let i = REC_N as usize;
+        if i < 4 {
+            REC_ID[i] = r.id;
+            REC_LEVEL[i] = r.level as u8;
+            let mut v = Vis { parent: 0 };
+            (r.kvscan)(&mut v);
+            REC_PARENT[i] = v.parent;
+        }
+        REC_N += 1;
+        // a logger may itself open a span while handling an Open record (e.g. to start its own sink)
+        if NEST && r.level == LogLevel::Open && NESTED_ID == 0 {
+            NEST = false;
+            NESTED_ID = core.log_span_open("nested", 0, |_| {});
+        }
+    }
+}
+fn any_level() -> LogLevel {
+    let k: u8 = kani::any();
+    kani::assume(k <= 8);
+    match k {
+        0 => LogLevel::Trace,
+        1 => LogLevel::Debug,
+        2 => LogLevel::Info,
+        3 => LogLevel::Warn,
+        4 => LogLevel::Error,
+        5 => LogLevel::Audit,
+        6 => LogLevel::Open,
+        7 => LogLevel::Close,
+        _ => LogLevel::Off,
+    }
+}
+
+// Span ids: from an ARBITRARY sequence counter, every id handed out is non-zero and differs from the previous
+// one, also when the logger re-enters Core and opens a span while handling the Open record.
+// @verif prop=C20 tier=quick timeout=500 mem=16 unwind=12 unwindset=drop_glue::<\[.*Stakker\)>\]>\.0$:1
+// @enc Core::log_span_open Core::log_span_close Core::log Core::log_check Stakker::set_logger LogFilter::{all,allows,from}
+// @sym the id sequence counter (any u64, including the wrap at 2^64); parent id; whether the logger re-enters
+// @bound two span opens (+ one nested open by the logger) and one close
+// @stub std::hash::RandomState::new -> fixed keys
+// @assume multi-stakker,no-unsafe-queue,logger build
+#[kani::proof]
+#[kani::unwind(12)]
+#[kani::stub(std::hash::RandomState::new, crate::uazu_stakker_verif::support::fixed_random_state)]
+fn lg_span_ids() {
+    rreset();
+    let mut s = Stakker::new(base_instant());
+    s.set_logger(LogFilter::all(&[LogLevel::Open]), |c: &mut Core, r: &LogRecord<'_>| recorder(c, r)); // (a bare fn item here ICEs Kani 0.68)
+    let seq: u64 = kani::any();
+    s.log_id_seq = seq;
+    let nest: bool = kani::any();
+    unsafe { NEST = nest };
+    let parent: u64 = kani::any();
+    let id1 = s.log_span_open("a", parent, |_| {});
+    let id2 = s.log_span_open("b", id1, |_| {});
+    let nested = unsafe { NESTED_ID };
+    assert!(id1 != 0 && id2 != 0, "C20: a LogID must be non-zero");
+    assert!(id1 != id2, "C20: LogIDs must be fresh");
+    if nest {
+        assert!(nested != 0 && nested != id1 && nested != id2, "C20: a span opened by the logger while handling an Open record got a LogID that is not fresh");
+    }
+    unsafe {
+        // (a span opened from inside the logger is not delivered to it: the logger is taken out while it runs)
+        assert!(REC_N == 2, "C20: exactly one Open record per span");
+        assert!(REC_ID[0] == id1 && REC_LEVEL[0] == LogLevel::Open as u8, "C20: Open record must carry the new id");
+        assert!(REC_PARENT[0] == parent, "C20: Open record must carry the parent id (omitted when 0)");
+        let second = 1;
+        assert!(REC_ID[second] == id2 && REC_PARENT[second] == id1, "C20: Open record must carry its creator's id as parent");
+    }
+    s.log_span_close(id1, format_args!(""), |_| {});
+    unsafe {
+        let last = 2;
+        assert!(REC_N as usize == last + 1 && REC_ID[last] == id1 && REC_LEVEL[last] == LogLevel::Close as u8, "C20: Close record must carry the span's id");
+    }
+    kani::cover!(seq == u64::MAX, "id counter wraps");
+    kani::cover!(nest, "logger re-enters");
+    std::mem::forget(s);
+}
+
+// Filtering: a record is delivered exactly when the installed filter allows its level, and log_check agrees.
+// @verif prop=C20 tier=quick timeout=500 mem=16 unwind=12 unwindset=drop_glue::<\[.*Stakker\)>\]>\.0$:1
+// @enc Core::log Core::log_check Stakker::set_logger Stakker::set_log_filter LogFilter::{new,all,allows,from,bitor}
+// @sym installed filter: any union of up to 3 levels of the 9; record level: any of the 9
+// @bound one record
+// @stub std::hash::RandomState::new -> fixed keys
+// @assume multi-stakker,no-unsafe-queue,logger build
+#[kani::proof]
+#[kani::unwind(12)]
+#[kani::stub(std::hash::RandomState::new, crate::uazu_stakker_verif::support::fixed_random_state)]
+fn lg_filter() {
+    rreset();
+    let mut s = Stakker::new(base_instant());
+    assert!(!s.log_check(any_level()), "C20: nothing is enabled before a logger is installed");
+    let (l1, l2, l3) = (any_level(), any_level(), any_level());
+    let filter = LogFilter::all(&[l1, l2]) | LogFilter::from(l3);
+    s.set_logger(filter, |c: &mut Core, r: &LogRecord<'_>| recorder(c, r));
+    let level = any_level();
+    let id: u64 = kani::any();
+    let check = s.log_check(level);
+    assert!(check == filter.allows(level), "C20: log_check disagrees with the installed filter");
+    s.log(id, level, "", format_args!(""), |_| {});
+    unsafe {
+        assert!((REC_N == 1) == check, "C20: delivery disagrees with log_check");
+        if check {
+            assert!(REC_ID[0] == id && REC_LEVEL[0] == level as u8, "C20: record altered");
+        }
+    }
+    // what a filter built from levels must allow: the level itself (Off enables nothing), every higher severity
+    // for the five ordinary levels, and Open/Close together
+    assert!(filter.allows(l1) == (l1 != LogLevel::Off));
+    if l3 == LogLevel::Open || l3 == LogLevel::Close {
+        assert!(filter.allows(LogLevel::Open) && filter.allows(LogLevel::Close));
+    }
+    if (l3 as u8) < 4 {
+        assert!(filter.allows(LogLevel::Error), "a severity filter must allow everything above it");
+    }
+    assert!(!LogFilter::new().allows(level) && LogFilter::new().is_empty());
+    kani::cover!(check, "delivered");
+    kani::cover!(!check, "filtered out");
+    std::mem::forget(s);
+}
+
+#[cfg(uazu_replay_core)]
+include!(env!("UAZU_STAKKER_REPLAY_FILE"));
